@@ -429,12 +429,28 @@ func drain(it storage.TupleIterator, err error) string {
 	defer it.Stop()
 	var out []string
 	for {
+		// every third position is peeked first: Head must show exactly the tuple (key, condition name AND condition
+		// context) that the following Next returns, and must not consume it
+		head := ""
+		if len(out)%3 == 1 {
+			if h, herr := it.Head(context.Background()); herr == nil {
+				head = item(h)
+			} else if !errors.Is(herr, storage.ErrIteratorDone) {
+				return "ERR-head"
+			}
+		}
 		t, err := it.Next(context.Background())
 		if err != nil {
 			if errors.Is(err, storage.ErrIteratorDone) {
+				if head != "" {
+					out = append(out, "!head-without-next="+head)
+				}
 				break
 			}
 			return "ERR"
+		}
+		if head != "" && head != item(t) {
+			out = append(out, "!head="+head)
 		}
 		out = append(out, item(t))
 		if len(out) > 10000 {
